@@ -415,3 +415,19 @@ def inline_pure_temps(fdef):
             ch._parent = node
     new._parent = getattr(fdef, '_parent', None)
     return new
+
+
+def self_stores(fn):
+    """assignments to attributes of `self` (or entries of them) and global declarations inside a method"""
+    out = []
+    for node in ast.walk(fn):
+        if isinstance(node, (ast.Assign, ast.AugAssign, ast.AnnAssign)):
+            for t in (node.targets if isinstance(node, ast.Assign) else [node.target]):
+                base = t
+                while isinstance(base, ast.Subscript):
+                    base = base.value
+                if isinstance(base, ast.Attribute) and ast.unparse(base).startswith('self.'):
+                    out.append(node)
+        elif isinstance(node, ast.Global):
+            out.append(node)
+    return out
